@@ -14,7 +14,7 @@ PROPERTY = "C09"
 GEN = ["Contingency"]
 PROPS = ["ScoresVerif/Props/C09.lean", "ScoresVerif/Props/C09Zero.lean"]
 AUDIT_FILES = ["ScoresVerif/Lemmas/C09Zero.lean"]
-DRIVER_DEPS = ["ScoresVerif.Driver.C09"]
+DRIVER_DEPS = ["ScoresVerif.Driver.C09Spec", "ScoresVerif.Driver.C09"]
 LEVEL = "proof"
 TRUSTED = ["numpy log (libm) for SEDI: log is an uninterpreted function in the theorems"]
 ASSUMPTIONS = ["counts are exactly representable (integers / dyadic) so float + and * are exact; quotients compared to 1e-9",
@@ -80,7 +80,19 @@ def manager(tabs):
     da = lambda col: xr.DataArray(a[:, col].copy(), dims=["k"])
     cd = {"tp_count": da(0), "tn_count": da(3), "fp_count": da(1), "fn_count": da(2)}
     cd["total_count"] = cd["tp_count"] + cd["tn_count"] + cd["fp_count"] + cd["fn_count"]
-    return BasicContingencyManager(cd)
+    # a counts dictionary is looked up BY KEY: the caller may build it in any key order (cycled deterministically)
+    order = next(_KEY_ORDERS)
+    return BasicContingencyManager({k: cd[k] for k in order})
+
+
+import itertools as _itertools  # noqa: E402
+
+_KEY_ORDERS = _itertools.cycle([
+    ("tp_count", "tn_count", "fp_count", "fn_count", "total_count"),      # the order _get_counts produces
+    ("total_count", "fn_count", "fp_count", "tn_count", "tp_count"),
+    ("tp_count", "fp_count", "fn_count", "tn_count", "total_count"),      # 2x2 table reading order
+    ("fn_count", "tp_count", "total_count", "tn_count", "fp_count"),
+])
 
 
 def impl_all(tabs, names):
@@ -475,7 +487,7 @@ def run_event_case(ctx, batch, case, per_row, names, spec_of):
 
 def spec_lookup(tables):
     uniq = sorted(set(tables))
-    rows = core.run_driver("C09", ops_for(uniq, "c09.spec"))
+    rows = core.run_driver("C09Spec", ops_for(uniq, "c09.spec"))
     d = dict(zip(uniq, rows))
     return lambda t: d[tuple(t)]
 
@@ -523,7 +535,7 @@ def oracle(ctx, boost):
         scale = rng.choice([30, 1000, 10 ** 6])
         tabs.append(tuple(rng.choice([0, rng.randint(0, scale)]) for _ in range(4)))
     impl = impl_all(tabs, names)
-    spec = core.run_driver("C09", ops_for(tabs, "c09.spec"))
+    spec = core.run_driver("C09Spec", ops_for(tabs, "c09.spec"))
     thm = {"accuracy": "accuracy_eq_doc", "probability_of_detection": "pod_eq_doc", "heidke_skill_score": "hss_eq_doc",
            "equitable_threat_score": "ets_eq_doc", "odds_ratio": "odds_ratio_eq_doc"}
     compare(ctx, "impl-vs-documented-formula", "property", tabs, [n for n in names if n in spec[0] or n == "symmetric_extremal_dependence_index"],
@@ -641,7 +653,7 @@ def replay(ctx, payload):
         t = (int(case["tp"]), int(case["fp"]), int(case["fn"]), int(case["tn"]))
         names = metric_names()
         impl = impl_all([t], names)
-        spec = core.run_driver("C09", ops_for([t], "c09.spec"))
+        spec = core.run_driver("C09Spec", ops_for([t], "c09.spec"))
         ctx2 = core.Ctx("C09", "quick", 0)
         compare(ctx2, "replay", "property", [t], [n for n in names if n in spec[0] or n == "symmetric_extremal_dependence_index"], impl, spec)
         site = payload.get("site")
